@@ -186,6 +186,8 @@ class DepsModules:
     def ref(self, u, v):
         """Text of a reference to node v inside node u (an integer-typed atom)."""
         if u.kind == "field" and v.kind in ("field", "param") and v.module == u.module and v.owner == u.owner:
+            if v.kind == "field" and v.fkind == "array":
+                return "($present(%s) ? 1 : 0)" % v.name      # arrays are not integers
             return v.name
         q = "" if v.module == u.module else "x%d." % v.module
         if v.kind == "value":
